@@ -269,11 +269,39 @@ theorem emitSource_true_view (this : Nests) (f : JStr → JStr) : ∀ (jar acc o
         rw [hrec]
         simp [nameView, renamedView, emitClass_true_name this f c c' hc]
 
-theorem nestJar_true_view (jar : Jar) (ns : Nests) (out : Jar) (h : nestJar true jar ns = .ok out)
-    (hc : (filterRun jar ns).created = []) :
+theorem emitCreated_true_view (this : Nests) (f : JStr → JStr) (v : Nat) : ∀ (names : List JStr) (acc out : Jar),
+    emitCreated true this f v names acc = some out →
+    (acc.map Prod.fst ++ names.map (fun n => (createdView f n).1)).Nodup →
+    out.map nameView = acc.map nameView ++ names.map (createdView f) := by
+  intro names
+  induction names with
+  | nil => intro acc out h _; simp only [emitCreated, Option.some.injEq] at h; subst h; simp
+  | cons name rest ih =>
+    intro acc out h hnd
+    simp only [emitCreated, if_true] at h
+    cases hc : emitClass true this f (newClass v name) with
+    | none => rw [hc] at h; simp at h
+    | some c' =>
+      rw [hc] at h
+      simp only at h
+      have hk : f name ++ DOT_CLASS ∉ acc.map Prod.fst := by
+        intro hmem
+        rw [List.nodup_append] at hnd
+        exact hnd.2.2 _ hmem _ (by simp [createdView]) rfl
+      rw [remapEntryName_class, insert_new _ (Entry.cls c') acc hk] at h
+      have hrec := ih _ out h (by simpa [List.append_assoc, createdView] using hnd)
+      rw [hrec]
+      have hn : c'.name = f name := by
+        have := emitClass_true_name this f _ c' hc
+        simpa [newClass] using this
+      simp [nameView, createdView, hn]
+
+theorem nestJar_true_view (jar : Jar) (ns : Nests) (out : Jar) (h : nestJar true jar ns = .ok out) :
     ∃ table, jarTable (filterRun jar ns).kept = some table ∧
-      ((jar.map (fun e => (renamedView (tableMap table) e).1)).Nodup →
-        out.map nameView = jar.map (renamedView (tableMap table))) := by
+      (((filterRun jar ns).created.map (fun n => (createdView (tableMap table) n).1) ++
+          jar.map (fun e => (renamedView (tableMap table) e).1)).Nodup →
+        out.map nameView = (filterRun jar ns).created.map (createdView (tableMap table)) ++
+          jar.map (renamedView (tableMap table))) := by
   unfold nestJar at h
   cases hv : minVersion (classesOf jar) with
   | none => rw [hv] at h; simp at h
@@ -283,17 +311,37 @@ theorem nestJar_true_view (jar : Jar) (ns : Nests) (out : Jar) (h : nestJar true
     cases ht : jarTable (filterRun jar ns).kept with
     | none => rw [ht] at h; simp at h
     | some table =>
-      rw [ht, hc] at h
-      simp only [emitCreated] at h
+      rw [ht] at h
+      simp only at h
       refine ⟨table, rfl, ?_⟩
       intro hnd
-      cases hs : emitSource true (filterRun jar ns).kept (tableMap table) jar [] with
-      | none => rw [hs] at h; simp at h
-      | some o =>
-        rw [hs] at h
-        simp only [Except.ok.injEq] at h
-        subst h
-        have := emitSource_true_view _ _ jar [] o hs (by simpa using hnd)
-        simpa using this
+      cases hcr : emitCreated true (filterRun jar ns).kept (tableMap table) v (filterRun jar ns).created [] with
+      | none => rw [hcr] at h; simp at h
+      | some o1 =>
+        rw [hcr] at h
+        simp only at h
+        cases hs : emitSource true (filterRun jar ns).kept (tableMap table) jar o1 with
+        | none => rw [hs] at h; simp at h
+        | some o =>
+          rw [hs] at h
+          simp only [Except.ok.injEq] at h
+          subst h
+          have h1 := emitCreated_true_view _ _ v _ [] o1 hcr (by
+            rw [List.nodup_append] at hnd
+            simpa using hnd.1)
+          simp only [List.map_nil, List.nil_append] at h1
+          have hkeys : o1.map Prod.fst = (filterRun jar ns).created.map (fun n => (createdView (tableMap table) n).1) := by
+            have := congrArg (List.map Prod.fst) h1
+            simpa [List.map_map, Function.comp_def, nameView] using this
+          have h2 := emitSource_true_view _ _ jar o1 o hs (by rw [hkeys]; exact hnd)
+          rw [h2, h1]
+
+/-- a cyclic table of applied nests is an error in both modes -/
+theorem nestJar_table_err (r : Bool) (jar : Jar) (ns : Nests)
+    (ht : jarTable (filterRun jar ns).kept = none) : nestJar r jar ns = .error "e" := by
+  unfold nestJar
+  cases minVersion (classesOf jar) with
+  | none => rfl
+  | some v => simp only [ht]
 
 end Nest
